@@ -23,12 +23,12 @@ cd /verif
 start=$(date +%s)
 VERIF_REPO="$W" ./check.sh "$PROP" quick >"/var/tmp/seed-$ID.log" 2>&1; rc=$?
 end=$(date +%s)
-grep -E "^VIOLATION|^KNOWN-FINDING|^  key=|^vsim: [0-9]|HARNESS|SIM-STALL|check.sh:" "/var/tmp/seed-$ID.log" | cut -c1-220
+grep -a -E "^VIOLATION|^KNOWN-FINDING|^  key=|^vsim: [0-9]|HARNESS|SIM-STALL|check.sh:" "/var/tmp/seed-$ID.log" | cut -c1-220
 echo "[$ID] check $PROP quick exit=$rc in $((end-start))s"
 mkdir -p "/verif/seeded/$ID"
 [ "$SRC" -ef "/verif/seeded/$ID" ] || cp "$SRC/patch.diff" "$SRC/demo_test.go" "/verif/seeded/$ID/"
 [ -f "$SRC/notes.md" ] && ! [ "$SRC" -ef "/verif/seeded/$ID" ] && cp "$SRC/notes.md" "/verif/seeded/$ID/notes.md"
-keys=$(grep -E "^  key=" "/var/tmp/seed-$ID.log" | sed 's/^  key=//' | python3 -c 'import sys,json; print(json.dumps([l.strip() for l in sys.stdin]))')
+keys=$(grep -a -E "^  key=" "/var/tmp/seed-$ID.log" | sed 's/^  key=//' | python3 -c 'import sys,json; print(json.dumps([l.strip() for l in sys.stdin]))')
 python3 - "$ID" "$PROP" "$demo_clean" "$demo_patched" "$suite" "$rc" "$keys" "$DEMOFLAGS" "$demo_re" <<'PY'
 import json,sys
 ID,PROP,dc,dp,su,rc,keys,flags,demo=sys.argv[1:10]
